@@ -23,6 +23,18 @@ CHECKS = {
         "Lean-cited lemmas: product of all-ones list, sum of a constant list, mixed-radix bound.",
         technique="contract-based deductive verification: AST->VC symbolic execution of the real functions with loop invariants, z3/cvc5",
     ),
+    "C13": dict(
+        text=("Index bookkeeping of the data-parallel preconditioner computation proved on the real code: the six "
+              "`to_pad = -N % D` statements for symbolic N, D; batch() for symbolic device count / per-device batch / element "
+              "shape (comprehension map rule); unbatch() for b1,b2 in 1..3 with symbolic element dims (keeps the element shape "
+              "also when a dim is 1); and, under pmap axioms (psum=D, axis_index=r, all_gather), the post-condition of the real "
+              "_pmap_compute_preconditioners that slot k holds gate(prev[k], Root(stat[k], exponent[k], size[k])) - an expression "
+              "that does not mention D - for an enumerated (N,D) grid with symbolic matrices. Not a multi-device execution."),
+        design="7/C13",
+        note=TB + " pmap collectives are axioms; the inverse-root routine enters as an uninterpreted function of "
+        "(matrix named by its generic entry, exponent, padding).",
+        technique="contract-based deductive verification: AST->VC symbolic execution of the real functions under pmap axioms, z3",
+    ),
 }
 
 NA_REASON = "check not built yet (build in progress); the planned contract kernel is described in DESIGN.md section 7"
